@@ -17,7 +17,8 @@ func (n NativeLenFn) Call(i *Interpreter, arguments []interface{}) (interface{},
 	}
 
 	// Return the length of the array
-	return len(array), nil
+	// a number like every other: a Go int is rejected by the arithmetic and comparison operators
+	return float64(len(array)), nil
 }
 
 func (n NativeLenFn) Arity() int {
